@@ -66,7 +66,8 @@ def raw_read_contract(rep, F, rule="raw-read-contract"):
         exhausted = [p for p in ps if ("unit",) not in p["guards"]]
         for p in exhausted:
             r = p["state"].get(0)
-            if not (r is not None and r[0] == "adt" and r[2] == "None"):
+            none_by_try = r is not None and r[0] == "call" and "FromResidual" in (r[1] or "") and (r[1] or "").endswith("::from_residual") and f.locals[0]["ty"].startswith("std::option::Option")
+            if not (r is not None and r[0] == "adt" and r[2] == "None") and not none_by_try:
                 wrong.append("exhausted input: not None")
         n += 1
         rep.check(not wrong, rule, short(f.key), "%s does not answer Some(c) exactly for the characters that are neither a break nor the end of input, keeping c otherwise: %s"
